@@ -30,6 +30,7 @@ class Universe:
         for n, k, w in self.vars:
             self.sym[n] = claripy.BVS(self.real_names[n], w, explicit_name=True) if k == "bv" else \
                 claripy.BoolS(self.real_names[n], explicit_name=True)
+        self._parsed = {}
         self._vals = {}      # ast hash -> list of values (ints; bools as 0/1), one per assignment
         self._mask = {}      # ast hash -> bitset of assignments where the Bool ast is true
         self._vmask = {}     # ast hash -> {value: bitset}
@@ -40,8 +41,13 @@ class Universe:
         self.ns["true"], self.ns["false"] = claripy.true(), claripy.false()
 
     def parse(self, s):
-        """expression language of replays: a Python expression over the variables and claripy constructors"""
-        return eval(s, {"__builtins__": {}}, self.ns)  # noqa: S307  (our own strings only)
+        """expression language of replays: a Python expression over the variables and claripy constructors.
+        Memoised: the ASTs stay alive, so entries of the frontends' WeakValueDictionaries (exhausted flags) do not
+        vanish at the whim of the garbage collector (deleting them is always safe; the model keeps them)."""
+        r = self._parsed.get(s)
+        if r is None:
+            r = self._parsed[s] = eval(s, {"__builtins__": {}}, self.ns)  # noqa: S307  (our own strings only)
+        return r
 
     def var_value(self, name, i):
         return (i // self.stride[name]) & ((1 << self.bits[name]) - 1)
@@ -250,12 +256,35 @@ def gen_history(rng, length, calpha=CONSTRAINTS, ealpha=EXPRS, balpha=BOOLS, uni
             d.update(e=rng.choice(balpha), extra=extra())
         elif op == "unsat_core":
             d["extra"] = []
+        elif op in ("split", "combine", "merge"):
+            pass
         elif op == "branch":
             if nsolv >= max_solvers:
                 continue
             nsolv += 1
         hist.append(d)
     return hist
+
+
+def gen_struct_history(rng, length, calpha=None, ealpha=None, weights=None, span=6):
+    """histories with split / combine / merge (relative solver addressing, see run_history)"""
+    calpha = calpha or CONSTRAINTS
+    base = gen_history(rng, length, calpha=calpha, ealpha=ealpha or EXPRS, max_solvers=99,
+                       weights=weights or {"add": 30, "satisfiable": 8, "eval": 12, "batch_eval": 3, "min": 6, "max": 6, "solution": 5,
+                                           "simplify": 4, "downsize": 1, "branch": 8, "split": 5, "combine": 6, "merge": 7})
+    out = []
+    for d in base:
+        d = dict(d)
+        d["rel"] = True
+        d["s"] = rng.randrange(span)
+        if d["op"] == "combine":
+            d["others"] = [rng.randrange(span) for _ in range(rng.choice([1, 1, 2]))]
+        elif d["op"] == "merge":
+            d["others"] = [rng.randrange(span) for _ in range(rng.choice([1, 1, 2]))]
+            d["conds"] = [rng.choice(calpha + ["true", "true"]) for _ in range(1 + len(d["others"]))]
+            d["anc"] = rng.randrange(span) if rng.random() < 0.3 else None
+        out.append(d)
+    return out
 
 
 def all_short_histories(maxlen, calpha=SMALL_CONSTRAINTS, ealpha=SMALL_EXPRS):
@@ -285,6 +314,7 @@ SOLVER_CLASSES = {
     "SolverComposite": lambda **kw: claripy.SolverComposite(**kw),
     "SolverReplacement": lambda **kw: claripy.SolverReplacement(**{k: v for k, v in kw.items() if k != "track"}),
     "SolverHybrid": lambda **kw: claripy.SolverHybrid(**kw),
+    "SolverCompositeChild": lambda **kw: __import__("claripy.solvers").solvers.SolverCompositeChild(**kw),
 }
 
 
@@ -304,6 +334,10 @@ class Ref:
 
     def satmask(self, s, extra=()):
         return self.uni.conj(self.lists[s]) & self.uni.conj(extra)
+
+    def new(self, asts):
+        self.lists.append(list(asts))
+        return len(self.lists) - 1
 
 
 def signed_val(v, w):
@@ -391,6 +425,89 @@ def judge(uni, ref, d, outcome):
     raise ValueError(op)
 
 
+def conjuncts(asts):
+    out = []
+    for c in asts:
+        out.extend(list(c.args) if c.op == "And" else [c])
+    return out
+
+
+def judge_structure(uni, ref, solvers, d, outcome, pre):
+    """C15 on the result of split / combine / merge; `pre` = (reference lists, constraint lists of the operands) taken
+    BEFORE the call.  Also extends `ref` with the reference constraint lists of the new solvers."""
+    op = d["op"]
+    if outcome[0] != "ok":
+        # keep indices aligned for the rest of the history: nothing was created
+        return ("crash:" + (outcome[1] if outcome[0] == "err" else "UnsatError"), "%s raised %s" % (op, outcome[1:]))
+    i = d["s"]
+    if op == "split":
+        parts = outcome[1]
+        want = uni.conj(pre["ref"][i])
+        got = uni.full
+        groups = []
+        for p in parts:
+            cs = list(p.constraints)
+            ref.new(cs)
+            got &= uni.conj(cs)
+            groups.append((set().union(*[c.variables for c in cs]) if cs else set(), cs))
+        if got != want:
+            return ("split-not-equivalent", "the parts together have %d models, the solver has %d" % (bin(got).count("1"), bin(want).count("1")))
+        for a in range(len(groups)):
+            for b in range(a + 1, len(groups)):
+                if groups[a][0] & groups[b][0]:
+                    return ("split-shares-variables", "parts %d and %d share %s" % (a, b, sorted(groups[a][0] & groups[b][0])))
+        have = [c.hash() for g in groups for c in conjuncts(g[1]) if len(c.variables) > 0]   # a literal `true` is no conjunct
+        if len(have) != len(set(have)):
+            return ("split-duplicates-conjunct", "a conjunct occurs in more than one part / twice")
+        # every conjunct of a part is one the solver implies (children may hold simplified forms of the conjuncts)
+        for g in groups:
+            for c in conjuncts(g[1]):
+                if want & ~uni.mask(c) & uni.full:
+                    return ("split-foreign-conjunct", "part holds %s, which the solver does not imply" % c)
+        return None
+    if op == "combine":
+        want = uni.conj(pre["ref"][i])
+        allc = list(pre["ref"][i])
+        for j in d["others"]:
+            want &= uni.conj(pre["ref"][j])
+            allc += pre["ref"][j]
+        ref.new(allc)
+        got = uni.conj(list(outcome[1].constraints))
+        if got != want:
+            return ("combine-wrong-models", "combined solver has %d models, expected %d" % (bin(got).count("1"), bin(want).count("1")))
+        return None
+    if op == "merge":
+        conds = [uni.parse(c) for c in d["conds"]]
+        if d.get("anc") is not None:
+            want = uni.conj(pre["ref"][d["anc"]])
+            cm = 0
+            for c in conds:
+                cm |= uni.mask(c)
+            want &= cm
+            ref.new(list(pre["ref"][d["anc"]]) + [claripy.Or(*conds)])
+        else:
+            want = 0
+            opts = []
+            for j, c in zip([i] + list(d["others"]), conds):
+                want |= uni.mask(c) & uni.conj(pre["ref"][j])
+                opts.append(claripy.And(c, *pre["ref"][j]))
+            ref.new([claripy.Or(*opts)] if len(opts) > 1 else [opts[0]])
+        got = uni.conj(list(outcome[1].constraints))
+        if got != want:
+            return ("merge-wrong-models", "merged solver has %d models, expected %d" % (bin(got).count("1"), bin(want).count("1")))
+        return None
+    raise ValueError(op)
+
+
+def structure_predicate(solver, d):
+    """classifier for findings about split(): names the state predicate that explains overlapping parts"""
+    if d["op"] == "split" and hasattr(solver, "_solvers"):
+        for c in solver._solver_list:
+            if any(solver._solvers.get(v) is not c for v in c.variables):
+                return ":stale-child-owns-variable"
+    return ""
+
+
 def judge_core(uni, ref, solver, d, outcome):
     """C16 on one unsat_core() answer.  `Added to the solver` is read as: a constraint the user added or one the
     solver currently holds (its own simplified / expansion constraints) - see design_notes/C16.md."""
@@ -450,6 +567,20 @@ def apply_op(uni, solvers, d):
             return ("ok", len(solvers) - 1)
         if op == "unsat_core":
             return ("ok", tuple(s.unsat_core(extra_constraints=ex)))
+        if op == "split":
+            parts = s.split()
+            solvers.extend(parts)
+            return ("ok", parts)
+        if op == "combine":
+            r = s.combine([solvers[j] for j in d["others"]])
+            solvers.append(r)
+            return ("ok", r)
+        if op == "merge":
+            conds = [uni.parse(c) for c in d["conds"]]
+            anc = solvers[d["anc"]] if d.get("anc") is not None else None
+            r = s.merge([solvers[j] for j in d["others"]], conds, common_ancestor=anc)
+            solvers.append(r[1])
+            return ("ok", r[1])
         raise ValueError(op)
     except UnsatError as e:
         return ("unsat", str(e))
@@ -528,11 +659,37 @@ def run_history(uni, cls, cfg, hist, on_step=None):
             inj = FaultInjector()
             inj.install()
         for k, d in enumerate(hist):
+            if d.get("rel"):
+                # relative addressing (histories with split/combine/merge, where the number of solvers is not known
+                # to the generator): indices are taken modulo the number of solvers alive
+                d = dict(d)
+                d["s"] %= len(solvers)
+                if "others" in d:
+                    d["others"] = [j % len(solvers) for j in d["others"]]
+                if d.get("anc") is not None:
+                    d["anc"] %= len(solvers)
+                hist[k] = d
             if d["s"] >= len(solvers):
                 outs.append(("skip",))
                 continue
             if inj:
                 inj.arm(d.get("fault"))
+            if d["op"] in ("combine", "merge"):
+                # the API combines / merges solvers of one class; split() of a composite hands out its children
+                ops_ = [solvers[j] for j in d["others"]] + ([solvers[d["anc"]]] if d.get("anc") is not None else [])
+                if any(type(o) is not type(solvers[d["s"]]) for o in ops_):
+                    outs.append(("skip",))
+                    continue
+            if d["op"] in ("split", "combine", "merge"):
+                pre = {"ref": [list(l) for l in ref.lists], "cons": [list(sv.constraints) for sv in solvers]}
+                out = apply_op(uni, solvers, d)
+                outs.append(out if out[0] != "ok" else ("ok", "<%s>" % d["op"]))
+                j = judge_structure(uni, ref, solvers, d, out, pre)
+                if j:
+                    fails.append((k, j[0] + structure_predicate(solvers[d["s"]], d), j[1]))
+                if on_step:
+                    on_step(k, d, out, solvers, ref)
+                continue
             out = apply_op(uni, solvers, d)
             if inj and d.get("fault") is not None:
                 jf = judge_fault(d, out, inj.fired)
@@ -593,8 +750,8 @@ def shrink(uni, cls, cfg, hist, kind, tries=2):
     def renumber(h, drop):
         # removing op `drop`; if it is a branch, ops on the created solver (and later ones) must shift
         d = h[drop]
-        if d["op"] != "branch":
-            return h[:drop] + h[drop + 1:]
+        if d["op"] != "branch" or d.get("rel"):
+            return [dict(q) for q in h[:drop] + h[drop + 1:]]
         # index of the solver this branch created
         idx = 1 + sum(1 for q in h[:drop] if q["op"] == "branch")
         out = []
@@ -638,6 +795,8 @@ def shrink(uni, cls, cfg, hist, kind, tries=2):
 def signature(prop, cls, cfg, hist, idx, kind):
     """finding signature: property / class / failing call / failure kind + predicate class of the input"""
     d = hist[idx]
+    if d["op"] in ("split", "combine", "merge"):
+        return "%s/%s/%s/%s" % (prop, cls, d["op"], kind)
     preds = []
     if "signed" in d:
         preds.append("signed" if d["signed"] else "unsigned")
